@@ -566,7 +566,8 @@ def run_scenario(ctx, sc, acc):
                         # the layers between server and Publish report it.
                         lo_ = r.get("served_start", len(H.served))
                         hi_ = step_pubs[j_ + 1].get("served_start", len(H.served)) if j_ + 1 < len(step_pubs) else len(H.served)
-                        refused_ = [x for x in H.served[lo_:hi_] if not x[2]]
+                        # (a refusal whose answer was lost on the way never reached the publisher: not "encountered")
+                        refused_ = [x for x in H.served[lo_:hi_] if not x[2] and not all((x[0], sh_) in executed for sh_ in x[1])]
                         if refused_:
                             ctx.count("grid-publish-with-refused-test-and-set:" + str(r["result"]))
                             if r["result"] == "success":
@@ -642,7 +643,47 @@ CORPUS = [
     {"k": 1, "cs": 7, "vi": True, "writers": [(0, 0)], "evs": [("a", 0, 0, False, [(0, 9)])]},
     {"k": 3, "cs": 7, "vi": True, "writers": [(0, 0), (1, 1)], "evs": [("a", 0, 0, True, []), ("a", 1, 1, True, [])]},
     {"k": 1, "cs": 7, "vi": False, "writers": [(0, 0), (0, 1)], "evs": [("a", 0, 1, True, [(5, 7)]), ("a", 0, 0, True, [(5, 8)])]},
+    # one case per known mechanism (seeded changes and repaired defects), so that re-introducing one is caught here:
+    # C47-a: share 0 has two holders, the holders of shares 1 and 2 fail -> one distinct share number < k
+    {"k": 2, "cs": 7, "vi": True, "writers": [(0, 0), (0, 1), (1, 2), (2, 3)],
+     "evs": [("p", 1, 2), ("a", 0, 0, True, [(0, 3)]), ("p", 2, 3), ("a", 0, 1, True, [(0, 3)])]},
+    # C47-c: 4 of 5 requests fail; each failure must drop its own proxy (k = 3)
+    {"k": 3, "cs": 7, "vi": True, "writers": [(0, 0), (1, 1), (2, 2), (3, 3), (4, 4)],
+     "evs": [("p", 0, 0), ("p", 2, 2), ("a", 4, 4, True, [(4, 3)]), ("p", 1, 1), ("p", 3, 3)]},
+    {"k": 3, "cs": 7, "vi": True, "writers": [(0, 0), (1, 1), (2, 2), (3, 3), (4, 4)],
+     "evs": [("p", 4, 4), ("p", 3, 3), ("a", 0, 0, True, [(0, 3)]), ("p", 1, 1), ("p", 2, 2)]},
+    # C12-b: a refusal from a server, then an accepted write from the same server: still UncoordinatedWriteError
+    {"k": 1, "cs": 7, "vi": True, "writers": [(0, 0), (1, 0), (2, 1)],
+     "evs": [("a", 0, 0, False, [(0, 9), (1, 3)]), ("a", 1, 0, True, [(0, 9), (1, 3)]), ("a", 2, 1, True, [(2, 3)])]},
+    {"k": 1, "cs": 7, "vi": True, "writers": [(0, 0), (1, 0)],
+     "evs": [("a", 1, 0, False, [(0, 3), (1, 9)]), ("a", 0, 0, True, [(0, 3), (1, 9)])]},
 ]
+
+# grid scenarios of the fixed corpus
+GRID_CORPUS = [
+    # C47-b: MDMF, requests to two of three servers fail before reaching them: one stored share number < k = 2
+    {"servers": 3, "k": 2, "n": 3, "fmt": "m", "sched": 5, "policy": "fifo",
+     "steps": [{"kind": "create", "data": "00112233445566778899", "off": 0, "faults": {}},
+               {"kind": "pub", "data": "aabbccddeeff00112233", "off": 0, "faults": {"0": "before", "1": "before"}}]},
+    {"servers": 3, "k": 2, "n": 3, "fmt": "s", "sched": 6, "policy": "fifo",
+     "steps": [{"kind": "create", "data": "00112233445566778899", "off": 0, "faults": {}},
+               {"kind": "pub", "data": "aabbccddeeff00112233", "off": 0, "faults": {"1": "before", "2": "after"}}]},
+    # C12-c: MDMF, a server replays an older share between survey and write: the refusal must surface as UCW
+    {"servers": 2, "k": 1, "n": 4, "fmt": "m", "sched": 7, "policy": "fifo",
+     "steps": [{"kind": "create", "data": "0011223344", "off": 0, "faults": {}},
+               {"kind": "pub", "data": "5566778899", "off": 0, "faults": {}},
+               {"kind": "pub", "data": "aabbccddee", "off": 0, "faults": {"0": "tamper"}}]},
+]
+
+
+def json_copy(x):
+    import json
+    return json.loads(json.dumps(x))
+
+
+def corpus_only():
+    import os
+    return bool(os.environ.get("VERIF_CORPUS_ONLY"))
 
 
 def untuple_case(c):
@@ -674,9 +715,10 @@ def run(ctx):
         elif c.get("kind") == "grid-pub" or c.get("kind") == "scenario":
             scs = [c["sc"]]
     else:
-        pubs = [dict(c) for c in CORPUS] + [gen_pub(ctx.rng) for _ in range(ctx.budget(1200, 20000))]
-        goals = [gen_goal(ctx.rng) for _ in range(ctx.budget(600, 10000))]
-        scs = [gen_scenario(ctx.rng) for _ in range(ctx.budget(90, 1500))]
+        rnd = not corpus_only()
+        pubs = [dict(c) for c in CORPUS] + [gen_pub(ctx.rng) for _ in range(ctx.budget(1200, 20000) if rnd else 0)]
+        goals = [gen_goal(ctx.rng) for _ in range(ctx.budget(600, 10000) if rnd else 0)]
+        scs = [json_copy(sc) for sc in GRID_CORPUS] + [gen_scenario(ctx.rng) for _ in range(ctx.budget(90, 1500) if rnd else 0)]
     # (a)
     impl = []
     with grid.Runtime(seed=0, policy="fifo") as rt:
@@ -734,8 +776,9 @@ def run(ctx):
                 acc["rpc_cases"], acc["rpc_impl"], ctx.model(acc["rpc_lines"]))
     # the write proxies: what the Deferred handed to Publish fires with
     pc, pi, pl = [], [], []
-    for _ in range(ctx.budget(60, 600) if not ctx.replay else 0):
-        rpc = gen_rpc(ctx.rng)
+    rpcs = [] if ctx.replay else ([("B",), ("L", True), ("A", False, [(0, 9)]), ("A", True, [(0, 3)])] +
+                                  [gen_rpc(ctx.rng) for _ in range(0 if corpus_only() else ctx.budget(60, 600))])
+    for rpc in rpcs:
         for mdmf in (False, True):
             pc.append({"kind": "proxy", "mdmf": mdmf, "rpc": list(rpc)})
             try:
@@ -743,6 +786,14 @@ def run(ctx):
             except Exception as e:
                 pi.append("harness-exception:" + type(e).__name__)
             pl.append("proxy " + rpc_token(rpc))
+            # from the statement: a request the server never acknowledged must not reach Publish as an acknowledgement,
+            # and a refusal must reach it as a refusal
+            if rpc[0] != "A" and pi[-1] != "failure":
+                ctx.violation("a failed write request reached the publisher as %r instead of a failure" % pi[-1], pc[-1],
+                              "proxy-hides-failed-request-" + ("mdmf" if mdmf else "sdmf"))
+            if rpc[0] == "A" and not rpc[1] and not pi[-1].startswith("answer:F"):
+                ctx.violation("a refused test-and-set reached the publisher as %r" % pi[-1], pc[-1],
+                              "proxy-hides-refusal-" + ("mdmf" if mdmf else "sdmf"))
             ctx.case(("proxy", mdmf, rpc_token(rpc)))
             ctx.count("proxy-%s:%s" % ("mdmf" if mdmf else "sdmf", pi[-1].split(":")[0]))
     ctx.compare("SDMFSlotWriteProxy / MDMFSlotWriteProxy finish_publishing(): an answer and a failure are handed on unchanged",
